@@ -700,7 +700,7 @@ func (g *gcImpl) Exec(line string) string {
 	switch ws[0] {
 	case "mode":
 		return "ok"
-	case "find":
+	case "find", "findq":
 		if len(ws) != 4 {
 			return "bad-op"
 		}
@@ -709,7 +709,11 @@ func (g *gcImpl) Exec(line string) string {
 		if e1 != nil || e2 != nil {
 			return "bad-op"
 		}
-		return g.find(p, ws[2], bits)
+		ans := g.find(p, ws[2], bits)
+		if ws[0] == "findq" && ans != "invalid-program" {
+			return "ok"
+		}
+		return ans
 	case "promoted":
 		if len(ws) != 3 {
 			return "bad-op"
